@@ -35,10 +35,12 @@ LITERAL = {
 }
 
 
-def sentinel_for(param: str, tok: Tuple[str, object], decl: bool, host_cls: Optional[str], sig_index: int = 0):
+def sentinel_for(param: str, tok: Tuple[str, object], decl: bool, host_cls: Optional[str], sig_index: int = 0, zero=None):
     """(source text of the argument, predicate text describing it) for the argument bound by `tok` = ('P', i) / ('K', name)"""
     if param in LITERAL:
         return LITERAL[param][0], ("lit", LITERAL[param][1])
+    if zero is not None and param in zero:
+        return "0", ("zero", 0)
     if decl:
         if host_cls == "Potentiometer" and param == "pin":
             return "'A3'", ("lit", "A3")
@@ -48,16 +50,16 @@ def sentinel_for(param: str, tok: Tuple[str, object], decl: bool, host_cls: Opti
     return name, ("var", name)
 
 
-def build(cls: str, host_cls: Optional[str], host_fn: str, posable: List[str], npos: int, kws: List[str], order: List[str]):
+def build(cls: str, host_cls: Optional[str], host_fn: str, posable: List[str], npos: int, kws: List[str], order: List[str], zero=None):
     """script text + {param: descriptor} for one shape"""
     decl = cls.endswith("Decl")
     args, desc = [], {}
     for i, p in enumerate(posable[:npos]):
-        txt, d = sentinel_for(p, ("P", i), decl, host_cls, order.index(p))
+        txt, d = sentinel_for(p, ("P", i), decl, host_cls, order.index(p), zero)
         args.append(txt)
         desc[p] = d
     for k in kws:
-        txt, d = sentinel_for(k, ("K", k), decl, host_cls, order.index(k))
+        txt, d = sentinel_for(k, ("K", k), decl, host_cls, order.index(k), zero)
         args.append(f"{k}={txt}")
         desc[k] = d
     lines = [IMPORTS]
@@ -92,8 +94,9 @@ def _find(nodes, cls, acc):
 
 def run_one(task):
     """task = (cls, host_cls, host_fn, posable, npos, kws, signature order) -> (outcome kind, {field: value} | exception name, desc)"""
-    cls, host_cls, host_fn, posable, npos, kws, order = task
-    src, desc = build(cls, host_cls, host_fn, list(posable), npos, list(kws), list(order))
+    cls, host_cls, host_fn, posable, npos, kws, order = task[:7]
+    zero = task[7] if len(task) > 7 else None
+    src, desc = build(cls, host_cls, host_fn, list(posable), npos, list(kws), list(order), zero)
     try:
         _it, out = pe.parse_source(src)
     except AnalysisError as e:
@@ -139,6 +142,12 @@ def matches(value, d) -> bool:
             return float(value) == float(v) and not isinstance(value, bool)
         except (TypeError, ValueError):
             return False
+    if kind == "zero":
+        if isinstance(value, bool) or value is None:
+            return False
+        if isinstance(value, (int, float)):
+            return value == 0
+        return isinstance(value, str) and re.fullmatch(r"\(?\s*[-+]?0+(\.0*)?[fF]?\s*\)?", value.strip()) is not None
     if kind == "lit":
         if v is None:
             return True        # value-level parameter: what reaches the field is decided elsewhere
